@@ -1,12 +1,19 @@
-"""R-INV: inventory of unsafe operations performed by SAFE functions.
+"""R-INV: the unsafe frontier of every safe API function.
 
-Every call of an `unsafe fn` (crate-local or foreign: slice::get_unchecked, from_raw_parts, intrinsics, ...) made by a
-safe function is an obligation the safe function discharges for all its callers.  The sites present on the reviewed tree
-are frozen in engine/unsafe_inventory.json (function -> callee -> count; each was classified by reading: twin call behind
-the documented guard [R-G], masked / sentinel-bounded slice access [R-LAY, R-SPLIT], layout-checked raw view [R-LAY a],
-prefetch / popcount intrinsic).  A NEW unsafe call in a safe function -- the classic "replace checked indexing by
-get_unchecked" optimisation -- is accepted only if it is locally discharged (slice access dominated by `idx < len` of the
-same slice); otherwise it is reported.  Moving a site between functions of the same module is tolerated."""
+A safe exported function E discharges, for all its callers, the obligation of every unsafe operation it reaches without
+passing through another safe exported function.  The frontier of E is the set of call sites of *primitive* unsafe
+operations (foreign `unsafe fn`s such as slice::get_unchecked / from_raw_parts / intrinsics, and unsafe trait methods
+called on a type parameter) found in E, in the closures it creates, in the private safe helpers it calls and in every
+crate-local `unsafe fn` it calls (private or public: an `unsafe fn` passes its obligation to its caller, so it is
+expanded).  Safe exported callees are not expanded: they are entries of their own.
+
+engine/unsafe_inventory.json freezes, per entry (`Type[::Trait]::method`, module path dropped) and primitive, the number of
+distinct sites present on the reviewed tree; each was classified by reading (twin call behind the documented guard [R-G],
+masked / sentinel-bounded slice access [R-LAY, R-SPLIT], layout-checked raw view [R-LAY a], prefetch / popcount
+intrinsic).  The rule reports an entry whose frontier has MORE sites of some primitive than reviewed -- checked indexing
+replaced by get_unchecked, a checked call replaced by its `_unchecked` twin -- unless the additional sites are locally
+discharged (slice access dominated by `idx < len` of the same slice).  Renaming or moving helpers, extracting code into
+private (safe or unsafe) functions and moving a type into a sub-module leave every frontier unchanged."""
 import collections
 import json
 import os
@@ -16,38 +23,77 @@ from .report import Inst
 
 INV_PATH = os.path.join(os.path.dirname(os.path.abspath(__file__)), '..', 'unsafe_inventory.json')
 
+SKIP_MACROS = ('vec', 'write', 'format', 'dbg', 'println', 'eprintln', 'panic', 'assert', 'debug_assert', 'format_args')
+
+
+def entry_key(f):
+    """Type[::Trait]::name without the module path (moving a type into a sub-module keeps the key)."""
+    k = fn_key(f)
+    parts = k.split('::')
+    # drop lower-case module segments in front of the first capitalised (type / trait) segment
+    i = 0
+    while i < len(parts) - 1 and not parts[i][:1].isupper():
+        i += 1
+    return '::'.join(parts[i:]) if i < len(parts) - 1 else k
+
+
+def _is_entry(f):
+    return f['exported'] and not f['unsafe'] and f['kind'] != 'Closure' and not f['derived']
+
+
+def frontier(FA, f, _memo):
+    """{primitive: {site id: (F, bb, terminator)}} reached from f (see module doc)."""
+    out = collections.defaultdict(dict)
+    seen = set()
+    st = [f]
+    while st:
+        g = st.pop()
+        if g['path'] in seen:
+            continue
+        seen.add(g['path'])
+        F = FA.fn(g)
+        for bi, b in enumerate(g['blocks']):
+            for s in b['s']:
+                rv = s.get('rv')
+                if rv and rv['k'] == 'agg' and 'closure' in rv['kind']:
+                    c = FA.fns.get(rv['kind']['closure'])
+                    if c is not None:
+                        st.append(c)
+            t = b['t']
+            if t['k'] != 'call' or 'fn' not in t['f']:
+                continue
+            fn = t['f']['fn']
+            if any(m in SKIP_MACROS or 'fmt' in m or 'panic' in m for m in t.get('macros', [])):
+                continue
+            if fn['path'].startswith('std::fmt') or fn['path'].startswith('core::fmt'):
+                continue
+            cands = FA.resolve(fn) if (fn.get('local') or fn.get('crate') == 'qwt') else []
+            if fn['trait'] and FA.by_trait.get((fn['trait'], fn['name'], base_type(fn['self_ty']))) is None \
+                    and not (len(cands) == 1 and cands[0]['path'] == fn['path']):
+                cands = []             # trait method on a type parameter: the implementation is the instantiator's choice
+            if len(cands) == 1 and cands[0]['blocks']:
+                h = cands[0]
+                if h['unsafe'] or not _is_entry(h):
+                    st.append(h)       # unsafe fn (any visibility) or private safe helper: expanded
+                continue               # safe exported callee: its own entry
+            if fn['unsafe']:
+                out[short_callee(fn)][(g['path'], bi)] = (F, bi, t)
+    return out
+
 
 def collect(FA):
-    inv = collections.defaultdict(collections.Counter)
-    sites = collections.defaultdict(list)
-    for f in FA.lib_fns():
-        if f['unsafe'] or FA.closure_parent(f)['unsafe']:
+    inv = {}
+    memo = {}
+    for f in FA.lib_fns(include_closures=False):
+        if not _is_entry(f):
             continue
-        k = fn_key(FA.closure_parent(f))
-        seen_specs = set()
-        for spec in FA.specs(f):
-            F = FA.fn(f, spec)
-            for bi, t in F.calls():
-                fn = t['f']['fn']
-                if not fn['unsafe']:
-                    continue
-                if any(m in ('vec', 'write', 'format', 'dbg', 'println', 'eprintln', 'panic', 'assert', 'debug_assert', 'format_args') or 'fmt' in m or 'panic' in m
-                       for m in t.get('macros', [])):
-                    continue
-                if fn['path'].startswith('std::fmt') or fn['path'].startswith('core::fmt'):
-                    continue
-                sid = (k, short_callee(fn), t.get('line', ''))
-                if sid in seen_specs:
-                    continue
-                seen_specs.add(sid)
-                inv[k][short_callee(fn)] += 1
-                sites[(k, short_callee(fn))].append((F, bi, t))
-    return inv, sites
-
-
-def module_of(k):
-    parts = k.split('::')
-    return '::'.join(parts[:2]) if len(parts) > 2 else parts[0]
+        fr = frontier(FA, f, memo)
+        if fr:
+            k = entry_key(f)
+            cur = inv.setdefault(k, collections.defaultdict(dict))
+            for prim, sites in fr.items():
+                cur[prim].update(sites)
+    return inv
 
 
 def locally_discharged(F, bi, t):
@@ -58,11 +104,6 @@ def locally_discharged(F, bi, t):
         for op, a, b in [x for x in path_atoms(F, bi) if x[0] == '<']:
             if a == idx and b[0] == 'call' and b[1].split('::')[-1] == 'len' and b[2] and strip_ref(b[2][0]) == strip_ref(recv):
                 return True
-        # constant-length array receiver with a masked index
-        if idx[0] == 'bin' and idx[1] == 'BitAnd' and any(x[0] == 'const' for x in (idx[2], idx[3])):
-            m = [x[1] for x in (idx[2], idx[3]) if x[0] == 'const'][0]
-            if recv[0] == 'cast' and '[' in recv[1]:
-                return False
     return False
 
 
@@ -73,32 +114,30 @@ def rule_INV(FA):
         table = json.load(open(INV_PATH))
     except OSError:
         return [Inst('R-INV', 'R-INV|table', 'violation', '', 'engine/unsafe_inventory.json missing', props)]
-    inv, sites = collect(FA)
-    # per-module totals tolerate moves between functions of a module
-    tab_mod = collections.Counter()
-    for k, cs in table.items():
-        for c, n in cs.items():
-            tab_mod[(module_of(k), c)] += n
-    cur_mod = collections.Counter()
-    for k, cs in inv.items():
-        for c, n in cs.items():
-            cur_mod[(module_of(k), c)] += n
+    inv = collect(FA)
     for k in sorted(inv):
-        for c, n in sorted(inv[k].items()):
-            allowed = table.get(k, {}).get(c, 0)
-            key = 'R-INV|%s|%s' % (k, c)
+        for prim, sites in sorted(inv[k].items()):
+            n = len(sites)
+            allowed = table.get(k, {}).get(prim, 0)
+            key = 'R-INV|%s|%s' % (k, prim)
+            any_site = sorted(sites.items())[0][1]
+            line = any_site[2].get('line', '')
             if n <= allowed:
-                out.append(Inst('R-INV', key, 'ok', sites[(k, c)][0][2].get('line', ''), '%d unsafe call site(s), all in the reviewed inventory' % n, props, nontrivial=True))
+                out.append(Inst('R-INV', key, 'ok', line, '%d site(s) of unsafe `%s` in the frontier, reviewed inventory has %d' % (n, prim, allowed), props, nontrivial=True))
                 continue
-            extra = sites[(k, c)]
-            undischarged = [s for s in extra if not locally_discharged(*s)]
-            if len(undischarged) <= allowed:
-                out.append(Inst('R-INV', key, 'ok', extra[0][2].get('line', ''), 'new unchecked slice access is dominated by `index < len` of the same slice', props))
-            elif cur_mod[(module_of(k), c)] <= tab_mod[(module_of(k), c)]:
-                out.append(Inst('R-INV', key, 'note', extra[0][2].get('line', ''), 'unsafe call site moved between functions of %s (module total unchanged)' % module_of(k), props, nontrivial=False))
-            else:
-                out.append(Inst('R-INV', key, 'violation', undischarged[-1][2].get('line', ''),
-                                'safe function `%s` performs %d call(s) of unsafe `%s`, the reviewed inventory has %d: a new unchecked operation whose safety obligation is not discharged locally (no dominating `index < len`) and is not classified' % (
-                                    k.split('::')[-1], n, c, allowed), props,
-                                sample={'args': [show(norm(undischarged[-1][0].operand_term(a)))[:100] for a in undischarged[-1][2]['args']]}))
+            und = [s for _, s in sorted(sites.items()) if not locally_discharged(*s)]
+            if len(und) <= allowed:
+                out.append(Inst('R-INV', key, 'ok', line, 'additional unchecked slice access is dominated by `index < len` of the same slice', props))
+                continue
+            where = ['%s (%s)' % (fn_key(FA.closure_parent(s[0].f)).split('::', 1)[-1], s[2].get('line', '')) for s in und]
+            out.append(Inst('R-INV', key, 'violation', und[-1][2].get('line', ''),
+                            'safe API function `%s` reaches %d site(s) of unsafe `%s` without passing through another safe API function, the reviewed inventory has %d: '
+                            'a new unchecked operation whose obligation is not discharged locally (no dominating `index < len`) and is not classified; sites: %s' % (
+                                k, n, prim, allowed, '; '.join(where[:8])), props,
+                            sample={'sites': where[:20]}))
     return out
+
+
+def dump_inventory(FA):
+    inv = collect(FA)
+    return {k: {p: len(s) for p, s in sorted(v.items())} for k, v in sorted(inv.items())}
